@@ -442,9 +442,12 @@ def save_sequences(ctx):
     from pycel import ExcelCompiler
     spec = {'sheets': [['Sheet1', {'A1': 1, 'B1': '=A1*2', 'C1': '=B1&"x"'}]], 'names': {}, 'arrays': [], 'calc': None}
     for text in ('yml', 'json'):
-        for between in ((), (text,), ('pkl', text), ('pkl',)):
-            base = os.path.join(ctx.tmpdir, f'seq-{text}-{"-".join(between) or "none"}-model')
-            case = {'kind': 'save-sequence', 'text': text, 'between': list(between)}
+        other = 'json' if text == 'yml' else 'yml'
+        for between, revert in (((), False), ((text,), False), (('pkl', text), False), (('pkl',), False),
+                                ((other,), False), (('pkl', other), False), (('pkl', other), True),
+                                ((other,), True)):
+            base = os.path.join(ctx.tmpdir, f'seq-{text}-{"-".join(between) or "none"}-{revert}-model')
+            case = {'kind': 'save-sequence', 'text': text, 'between': list(between), 'revert': revert}
             comp = wb.compile_mem(spec)
             comp.evaluate('Sheet1!C1')
             try:
@@ -453,7 +456,10 @@ def save_sequences(ctx):
                 comp.evaluate('Sheet1!C1')
                 if between:
                     comp.to_file(base, file_types=between)            # state 1, some of the files
-                comp.to_file(base, file_types=('pkl', text))          # state 1, both files
+                if revert:
+                    comp.set_value('Sheet1!A1', 1)                    # the text file of state 0 is current again
+                    comp.evaluate('Sheet1!C1')
+                comp.to_file(base, file_types=('pkl', text))          # the model as it is now, both files
                 loaded = {ext: ExcelCompiler.from_file(f'{base}.{ext}') for ext in ('pkl', text)}
             except Exception as exc:
                 if not wb.raised_outside_harness(exc):
@@ -465,13 +471,14 @@ def save_sequences(ctx):
                     os.remove(f)
             ctx.count('directed:save_sequences')
             ctx.case(('save-sequence', text, between))
+            want = '2x' if revert else '20x'
             for ext, model in loaded.items():
                 got = wb.outcome(model.evaluate, 'Sheet1!C1')
-                if got != ('v', '20x'):
+                if got != ('v', want):
                     ctx.violation(f'file-written-by-to_file-holds-an-older-model/{ext}',
                                   f'to_file(pkl+{text}); set_value; to_file({"+".join(between) or "nothing"}); '
-                                  f'to_file(pkl+{text}): the model loaded from the {ext} file gives C1 = {got!r}, '
-                                  f'the saved model has 20x', case)
+                                  f'{"set_value back; " if revert else ""}to_file(pkl+{text}): the model loaded from '
+                                  f'the {ext} file gives C1 = {got!r}, the saved model has {want}', case)
                     break
 
 
